@@ -28,6 +28,9 @@ func runC12(c *Check, tier string) {
 	}
 	ruleR12e(c)
 	ruleR12f(c)
+	// the platform filter reads the configuration through accessors: they must not cache stale answers
+	ruleDerivedFieldFresh(c, "R12h", "config", "selection", "label")
+	ruleMemoKeyComplete(c, "R12i", "config", "selection", "label")
 }
 
 // R12f: the platform predicate is exact membership.
